@@ -186,6 +186,9 @@ fn cut_impl(ctx: &mut Ctx, connecting: bool) {
         world::plain(ctx);
     }
     let nby = 1 + ctx.plan(3) as usize;
+    // a publisher that only publishes, and a lot: it learns of the dead subscriber on its send
+    // path (the write buffer has to fill up for that), not from a read
+    let heavy = disturbed && !connecting && matches!(kind, Kind::Pub | Kind::Xpub) && ctx.plan_bool();
     let out = Rc::new(RefCell::new(Out::default()));
     {
         let mut o = out.borrow_mut();
@@ -273,10 +276,14 @@ fn cut_impl(ctx: &mut Ctx, connecting: bool) {
             }
         }
         // the socket gets to observe the end: receive until idle; sending kinds try to send
-        drain(&mut sock, kind, &o2, false).await;
+        if heavy {
+            rt::count("probe_publishing_heavily_right_after_the_fault");
+        } else {
+            drain(&mut sock, kind, &o2, false).await;
+        }
         if kind.has_send() {
             for n in 0..(nby as u32 + 2) {
-                let body = tagged(90, n, &[2]);
+                let body = tagged(90, n, &[if heavy { 70_000 } else { 2 }]);
                 let msg = if kind == Kind::Router { vec![b"victim".to_vec(), body[0].clone()] } else { body };
                 match kind {
                     Kind::Rep => {}
